@@ -216,7 +216,7 @@ theorem getD_lt_of_forall {a : Array Nat} {B : Nat} (h : ∀ x ∈ a, x < B) (hB
   · exact h _ (Array.getElem_mem _)
   · exact hB
 
-theorem getD_map_lt (a : Array Nat) (f : Nat → Nat) {j : Nat} (hj : j < a.size) :
+theorem c10i_getD_map_lt (a : Array Nat) (f : Nat → Nat) {j : Nat} (hj : j < a.size) :
     (a.map f).getD j 0 = f (a.getD j 0) := by
   simp [Array.getD, hj]
 
@@ -248,8 +248,8 @@ theorem divRoundLastComp_getD {r : RNSTool} {p : RnsPoly} {i j : Nat}
           ((p.getD (r.baseQ.size - 1) #[]).getD j 0) ((p.getD i #[]).getD j 0) := by
   unfold divRoundLastComp divRoundLastCoeff
   dsimp only
-  rw [getD_map_lt _ _ (by rw [List.size_toArray, List.length_map, List.length_range, hni]; exact hj), getD_rangeMap _ _ (by rw [hni]; exact hj),
-    getD_map_lt _ _ (by rw [Array.size_map, hnl]; exact hj), getD_map_lt _ _ (by rw [hnl]; exact hj)]
+  rw [c10i_getD_map_lt _ _ (by rw [List.size_toArray, List.length_map, List.length_range, hni]; exact hj), getD_rangeMap _ _ (by rw [hni]; exact hj),
+    c10i_getD_map_lt _ _ (by rw [Array.size_map, hnl]; exact hj), c10i_getD_map_lt _ _ (by rw [hnl]; exact hj)]
 
 /-- LIFT to the model (coefficient form): every output component i < size-1, every coefficient j -/
 theorem divideAndRoundQLast_spec {r : RNSTool} {p : RnsPoly}
@@ -812,7 +812,7 @@ theorem smMrq_spec {r : RNSTool} {p : RnsPoly}
   · refine ⟨_, rfl, ?_⟩
     intro i j hi hj
     rw [getD_rangeMap' _ _ _ hi, getD_rangeMap _ _ (by rw [Array.size_map, hn]; exact hj),
-      getD_map_lt _ _ (by rw [hn]; exact hj)]
+      c10i_getD_map_lt _ _ (by rw [hn]; exact hj)]
     rfl
   · intro i hi
     rw [List.mem_range] at hi
@@ -825,7 +825,7 @@ theorem smMrq_spec {r : RNSTool} {p : RnsPoly}
     intro k hk
     rw [Array.size_map, hn] at hk
     refine smMrq_step_ok hbi hmb hpq hpqv hinv ?_ (hc i k (by omega) hk)
-    rw [getD_map_lt _ _ (by rw [hn]; exact hk)]
+    rw [c10i_getD_map_lt _ _ (by rw [hn]; exact hk)]
     exact Nat.mod_lt _ hm0
 
 theorem fastFloor_step_ok {b : Modulus} {invQ : MulOperand} {x d : Nat}
@@ -1050,7 +1050,7 @@ theorem decryptScaleAndRound_spec {r : RNSTool} {p tg : RnsPoly} {btg : RNSBase}
   · refine ⟨_, rfl, ?_⟩
     intro j hj
     rw [getD_rangeMap _ _ (by rw [Array.size_map, hs0]; exact hj),
-      getD_map_lt _ _ (by rw [hs1]; exact hj), getD_map_lt _ _ (by rw [hs0]; exact hj)]
+      c10i_getD_map_lt _ _ (by rw [hs1]; exact hj), c10i_getD_map_lt _ _ (by rw [hs0]; exact hj)]
     rfl
   · intro k hk
     refine scaleAndRound_step_ok ht hig ?_ ?_ (by omega)
@@ -1158,9 +1158,9 @@ theorem modTAndDivideQLast_spec {r : RNSTool} {p : RnsPoly}
     intro i j hi hj
     have hb0 : 0 < (r.baseQ.q i).value := by have := (hq i (by omega)).two_le; omega
     rw [getD_push_rangeMap _ _ _ _ hi,
-      getD_map_lt _ _ (by rw [List.size_toArray, List.length_map, List.length_range]; exact hj),
-      getD_rangeMap _ _ hj, getD_map_lt _ _ (by rw [Array.size_map, hn]; exact hj),
-      getD_map_lt _ _ (by rw [hn]; exact hj)]
+      c10i_getD_map_lt _ _ (by rw [List.size_toArray, List.length_map, List.length_range]; exact hj),
+      getD_rangeMap _ _ hj, c10i_getD_map_lt _ _ (by rw [Array.size_map, hn]; exact hj),
+      c10i_getD_map_lt _ _ (by rw [hn]; exact hj)]
     unfold modTDivLastCoeff
     dsimp only
     refine modTDiv_value (Nat.mod_lt _ hb0) (Nat.mod_lt _ hb0) ?_
